@@ -145,7 +145,7 @@ pub fn step_cc<N: Nd>(nd: &mut N, mask: u16, ch: u8) {
         check!(m.channel().get() == ch, "C15 C08 reported message carries the channel of the input");
     }
     check!(out3(out) == expect, "C08 C15 [conformance] output equals the observer's: exactly the justified message (channel, MSB controller, 128 x MSB value + LSB value)");
-    check!(s == gen(&a), "C08 C15 C16 [conformance] post-state is the state of the advanced observer (only the addressed channel changes)");
+    check!(s == gen(&a), "C08 C15 C16 C07 C17 [conformance] post-state is the state of the advanced observer (only the addressed channel changes)");
     witness!(nd, out.is_some(), "reported");
     witness!(nd, d1 >= 32 && d1 < 64 && out.is_none(), "LSB without matching MSB");
     witness!(nd, d1 < 32, "MSB");
